@@ -30,28 +30,17 @@ Theorem one_fetch_per_meta_tile :
               exists req r, In req reqs /\ In r req /\ cached c0 r = false /\ m = g_main g r.
 Proof. exact grid_one_fetch. Qed.
 
-(* Without expiry: every finished requester hands back, for every tile it asked for, the image the upstream
-   draws for exactly that tile - for any number of requesters and any interleaving. *)
+(* Every finished requester hands back, for every tile it asked for, the image the upstream draws for exactly that
+   tile - for any number of requesters and any interleaving, with or without an expire timestamp and expired files.
+   `response_in (cache s) pr` is the response as it is built: tiles loaded from the cache are file sources that are
+   read then (a request that loaded an expired file and waited for the lock hands back the re-created file). *)
 Theorem all_responses_correct :
-  forall g up c0 reqs sched p pr,
-    valid_gconf g -> valid_reqs g reqs -> content_ok up c0 ->
-    let s := run (grid_sys g true true up) (init c0 reqs) sched in
-    nth_error (procs s) p = Some pr -> p_pc pr = Done ->
-    exists req, nth_error reqs p = Some req /\ response pr = map (fun r => (r, Some (up r))) req.
-Proof. exact grid_responses_correct. Qed.
-
-(* With an expire timestamp: every requested tile is answered with an image, namely the upstream's image of that
-   tile or the expired image of that tile that was in the cache at the start (a request that loaded the expired
-   image and then waited for the lock keeps it: load_tile does nothing for a Tile that has a source) - never
-   without image, never another tile's image.
-   _partial: "the correct image" would be the upstream's; see the report (candidate finding). *)
-Theorem all_responses_correct_with_expiry_partial :
-  forall g up expire old c0 reqs sched p pr r,
+  forall g up expire old c0 reqs sched p pr,
     valid_gconf g -> valid_reqs g reqs -> content_ok up c0 -> old_ok expire old ->
     let s := run (grid_sys_x g true true up expire old) (init c0 reqs) sched in
-    nth_error (procs s) p = Some pr -> p_pc pr = Done -> In r (p_req pr) ->
-    exists v, In (r, Some v) (response pr) /\ (v = up r \/ old r = Some v).
-Proof. exact grid_responses_answered. Qed.
+    nth_error (procs s) p = Some pr -> p_pc pr = Done ->
+    exists req, nth_error reqs p = Some req /\ response_in (cache s) pr = map (fun r => (r, Some (up r))) req.
+Proof. exact grid_responses_built. Qed.
 
 (* The valid (not expired) part of the cache holds, at every moment, only correct images and only tiles that were
    valid at the start or belong to the meta tile of a requested tile that was missing or expired at the start;
